@@ -280,7 +280,7 @@ def run(ctx):
     coverage = {
         "programs": tally.programs,
         "exhaustive": True,
-        "bound": (f"all parent vectors with <= {3 if ctx.quick else 4} containers x 12 criteria per child edge (a boolean flag against the text "0", APID==1, APID==2, APID!=1, SEL<2, two-comparison list, "
+        "bound": (f"all parent vectors with <= {3 if ctx.quick else 4} containers x 12 criteria per child edge (a boolean flag against the text '0', APID==1, APID==2, APID!=1, SEL<2, two-comparison list, "
                   "boolean expression, no RestrictionCriteria, two-parameter condition with mixed raw/calibrated selectors, nested AND/OR groups, a text discriminator with a significant trailing blank, a discriminator that is a float in some packets and an int in others) x abstract flag per node x nesting {none, shared nested container referenced from two nodes, nested "
                   "inside the root, double reference, diamond, a stand-alone container listed first that embeds the root} x document order {parents first, children first} x header naming {conventional, other}; packets APID 0..3 x SEL 0..3; "
                   "parse_ccsds_packet and the generator with and without error reporting; every 11th document also built from objects; "
